@@ -73,7 +73,38 @@ type CatWithDefaults struct {
 	K int         `config:"k"`
 }
 
+// named slice and map types with Validate methods: a nil or empty value the configuration does not mention is validated too
+type CatTags []string
+
+func (t CatTags) Validate() error {
+	if len(t) == 0 {
+		return errors.New("no tags")
+	}
+	return nil
+}
+
+type CatLabels map[string]string
+
+func (l CatLabels) Validate() error {
+	if len(l) == 0 {
+		return errors.New("no labels")
+	}
+	return nil
+}
+
+type CatTaggedInner struct {
+	T CatTags `config:"t"`
+}
+
+type CatTagged struct {
+	Tags   CatTags                   `config:"tags"`
+	Labels CatLabels                 `config:"labels"`
+	N      int                       `config:"n"`
+	Inner  map[string]CatTaggedInner `config:"inner"`
+}
+
 var catalog = map[string]reflect.Type{
+	"Tagged":       reflect.TypeOf(CatTagged{}),
 	"Range":        reflect.TypeOf(CatRange{}),
 	"Ptr":          reflect.TypeOf(CatPtr{}),
 	"Defaults":     reflect.TypeOf(CatDefaults{}),
